@@ -7,14 +7,18 @@ from vlib import unitmodel as um
 from vlib.harness import Sub
 
 PROPERTY = "C20"
-RULE = ("histories: Hypothesis lists of dictionary operations (set good/mis-shaped/wrong-type, del, pop, get, "
-        "update mapping/kwargs/mixed, clear, copy, constructor) over keys a-e executed on Datagroup / Dataset and on "
+RULE = ("histories: Hypothesis lists of dictionary operations (set good/mis-shaped (other length, or same rows with shape "
+        "(n,1)/(n,2))/wrong-type, set of an item that is stored in another group, del, pop with and without default, get "
+        "with and without default, update mapping/kwargs/mixed, clear, copy, constructor) over keys a-e executed on Datagroup / Dataset and on "
         "a python dict model, full observable state compared after every step; non-trivial = history with >=1 "
         "rejected insertion and >=1 deletion. equality: generated pairs of Datagroups (identical, copies, unit-"
-        "converted, one/some/all elements different, different keys, reordered keys); non-trivial = same key set "
+        "converted, one/some/all elements different (also together with a unit difference, and the same raw numbers in "
+        "another unit), different keys, reordered keys, no keys, empty members, values scaled by 2^-40 / 2^-70 so that an "
+        "absolute tolerance would hide the difference); non-trivial = same key set "
         "but not equal, or equal with members in different units. distinct = distinct canonical JSON of the case.")
 ASSUMPTIONS = [
-    "python dict is the reference model (insertion order, KeyError semantics)",
+    "python dict is the reference model (insertion order, KeyError semantics, get/pop defaults)",
+    "'rejecting' a value means any exception; the exception type is not judged",
     "a failed update() may have inserted the items preceding the rejected one (sequential) or none (atomic)",
     "replacing the only member of a Datagroup by one of another shape: either outcome accepted",
     "unit-converted equal pairs use integer data and conversions whose factor is an exact float (to cm/g/s)",
@@ -34,6 +38,8 @@ def _mk_value(v):
     """v = {"kind": "A"|"V", "n": int, "base": int, "unit": str, "nvec": int}"""
     n = v["n"]
     vals = np.arange(n, dtype=np.float64) + v["base"]
+    if v.get("cols"):
+        vals = np.stack([vals + j for j in range(v["cols"])], axis=1)      # same row count, shape (n, cols)
     if v["kind"] == "A":
         return osyris.Array(values=vals, unit=v["unit"])
     comps = [osyris.Array(values=vals + 100 * (i + 1), unit=v["unit"]) for i in range(v["nvec"])]
@@ -46,6 +52,7 @@ value_st = st.fixed_dictionaries({
     "base": st.integers(0, 50),
     "unit": st.sampled_from(["m", "cm", "g", "s", "dimensionless"]),
     "nvec": st.integers(1, 3),
+    "cols": st.sampled_from([None, None, None, None, None, 1, 2]),
 })
 key_st = st.sampled_from(KEYS)
 
@@ -55,6 +62,7 @@ def _items_st(minsize=0):
 
 
 dg_op_st = st.one_of(
+    st.fixed_dictionaries({"op": st.sampled_from(["get1", "pop_default", "set_from_aux"]), "key": key_st}),
     st.fixed_dictionaries({"op": st.just("set"), "key": key_st, "val": value_st}),
     st.fixed_dictionaries({"op": st.just("set"), "key": key_st, "val": value_st}),
     st.fixed_dictionaries({"op": st.just("del"), "key": key_st}),
@@ -121,15 +129,11 @@ def _apply_set(container, model, key, obj, shape, r, where, cls="dg"):
     if ambiguous:
         if raised is None:
             model[key] = obj
-        elif not isinstance(raised, ValueError):
-            r.bad([cls, "set-wrong-exception", type(raised).__name__], f"{where}: {raised!r}")
         return raised is None
     if expect_reject:
         if raised is None:
             r.bad([cls, "misshaped-accepted"], f"{where}: shape {obj.shape} inserted into group of shape {cur_shape}")
             model[key] = obj
-        elif not isinstance(raised, ValueError):
-            r.bad([cls, "set-wrong-exception", type(raised).__name__], f"{where}: {raised!r}")
         return False
     if raised is not None:
         r.bad([cls, "good-set-raises", type(raised).__name__], f"{where}: {raised!r}")
@@ -161,6 +165,8 @@ def dg_history(case, r):
         r.bad(["dg", "constructor-raises", type(e).__name__], repr(e))
         return
     _observe_dg(dg, model, r, "after constructor")
+    aux = Datagroup(x=osyris.Array(values=np.arange(7.0), unit="m"))
+    aux_aliased = False
     for i, op in enumerate(case["ops"]):
         where = f"step {i} {op['op']}"
         o = op["op"]
@@ -194,6 +200,39 @@ def dg_history(case, r):
                     r.bad(["dg", "get"], f"{where}: get returned wrong object")
             except Exception as e:
                 r.bad(["dg", "get-raises", type(e).__name__], f"{where}: {e!r}")
+        elif o == "get1":
+            # dict.get(key) returns None for a missing key
+            try:
+                res = dg.get(op["key"])
+                if res is not model.get(op["key"]):
+                    r.bad(["dg", "get"], f"{where}: get(key) returned wrong object")
+            except Exception as e:
+                r.bad(["dg", "get-one-argument-raises", type(e).__name__], f"{where}: {e!r}")
+        elif o == "pop_default":
+            sentinel = object()
+            try:
+                res = dg.pop(op["key"], sentinel)
+                want = model.pop(op["key"], sentinel)
+                if want is not sentinel:
+                    n_del += 1
+                if res is not want:
+                    r.bad(["dg", "pop-returns"], f"{where}: pop(key, default) returned the wrong object")
+            except Exception as e:
+                r.bad(["dg", "pop-default-raises", type(e).__name__], f"{where}: {e!r}")
+        elif o == "set_from_aux":
+            # an item that is stored in another group of another shape: a rejected insertion must leave it alone
+            if aux_aliased:
+                continue        # already accepted once: the same object under two keys cannot carry both names
+            obj = aux["x"]
+            ok = _apply_set(dg, model, op["key"], obj, None, r, where)
+            if ok:
+                aux_aliased = True
+            else:
+                n_reject += 1
+                r.label("rejected_item_stored_elsewhere")
+            if not aux_aliased and aux["x"].name != "x":
+                r.bad(["dg", "rejected-insert-renamed-item"],
+                      f"{where}: the rejected item, stored as aux['x'], is now named {aux['x'].name!r}")
         elif o == "getitem":
             try:
                 res = dg[op["key"]]
@@ -226,9 +265,12 @@ def dg_history(case, r):
             pre = dict(model)
             seqmodel = dict(model)
             reject = False
+            ambiguous_update = False
             for k, obj in seq:
                 cur = next(iter(seqmodel.values())).shape if seqmodel else None
                 if seqmodel and cur != () and cur != obj.shape:
+                    if len(seqmodel) == 1 and k in seqmodel:
+                        ambiguous_update = True      # replacing the only member by another shape: either outcome
                     reject = True
                     break
                 seqmodel[k] = obj
@@ -237,13 +279,14 @@ def dg_history(case, r):
                 raised = None
             except Exception as e:
                 raised = e
-            if reject:
+            if reject and ambiguous_update:
+                model = {k: dg[k] for k in dg.keys()}
+                r.label("update_replaces_only_member")
+            elif reject:
                 n_reject += 1
                 if raised is None:
                     r.bad(["dg", "update-misshaped-accepted"], where)
                     model = {k: dg[k] for k in dg.keys()}
-                elif not isinstance(raised, ValueError):
-                    r.bad(["dg", "update-wrong-exception", type(raised).__name__], f"{where}: {raised!r}")
                 # either atomic or sequential-prefix state
                 got = list(dg.keys())
                 if got == list(seqmodel.keys()) and all(dg[k] is seqmodel[k] for k in got):
@@ -273,8 +316,8 @@ def dg_history(case, r):
                 if op["then_del"] in cp:
                     del cp[op["then_del"]]
                 else:
-                    cp["zz"] = _mk_value({"kind": "A", "n": next(iter(model.values())).shape[0] if model else 3,
-                                          "base": 0, "unit": "m", "nvec": 1})
+                    cp["zz"] = next(iter(model.values())).copy() if model else _mk_value(
+                        {"kind": "A", "n": 3, "base": 0, "unit": "m", "nvec": 1})
             except Exception as e:
                 r.bad(["dg", "copy-raises", type(e).__name__], f"{where}: {e!r}")
         _observe_dg(dg, model, r, f"after {where}")
@@ -316,6 +359,7 @@ def _mk_dsval(v):
 
 
 ds_op_st = st.one_of(
+    st.fixed_dictionaries({"op": st.sampled_from(["get1", "pop_default"]), "key": key_st}),
     st.fixed_dictionaries({"op": st.just("get"), "key": key_st}),
     st.fixed_dictionaries({"op": st.just("set"), "key": key_st, "val": st.just({"t": "group", "items": []})}),
     st.fixed_dictionaries({"op": st.just("set"), "key": key_st, "val": dsval_st}),
@@ -352,10 +396,7 @@ def _observe_ds(ds, model, meta, r, where):
         if [k for k, _ in ds.items()] != keys or any(v is not model[k] for k, v in ds.items()):
             r.bad(["ds", "items"], where)
         for k in KEYS:
-            try:
-                present = k in ds
-            except Exception:
-                present = k in list(ds.keys())
+            present = k in ds
             if present != (k in model):
                 r.bad(["ds", "contains"], f"{where}: {k}")
         for k in keys:
@@ -388,8 +429,6 @@ def _ds_set(ds, model, key, val, r, where):
     if raised is None:
         r.bad(["ds", "non-datagroup-accepted"], f"{where}: {type(val).__name__}")
         model[key] = val
-    elif not isinstance(raised, TypeError):
-        r.bad(["ds", "set-wrong-exception", type(raised).__name__], f"{where}: {raised!r}")
     return True
 
 
@@ -444,6 +483,23 @@ def ds_history(case, r):
                     r.bad(["ds", "get"], where)
             except Exception as e:
                 r.bad(["ds", "get-raises", type(e).__name__], f"{where}: {e!r}")
+        elif o == "get1":
+            try:
+                if ds.get(op["key"]) is not model.get(op["key"]):
+                    r.bad(["ds", "get"], where)
+            except Exception as e:
+                r.bad(["ds", "get-one-argument-raises", type(e).__name__], f"{where}: {e!r}")
+        elif o == "pop_default":
+            sentinel = object()
+            try:
+                res = ds.pop(op["key"], sentinel)
+                want = model.pop(op["key"], sentinel)
+                if want is not sentinel:
+                    n_del += 1
+                if res is not want:
+                    r.bad(["ds", "pop-returns"], where)
+            except Exception as e:
+                r.bad(["ds", "pop-default-raises", type(e).__name__], f"{where}: {e!r}")
         elif o == "getitem":
             try:
                 res = ds[op["key"]]
@@ -481,8 +537,6 @@ def ds_history(case, r):
                 n_reject += 1
                 if raised is None:
                     r.bad(["ds", "update-non-datagroup-accepted"], where)
-                elif not isinstance(raised, TypeError):
-                    r.bad(["ds", "update-wrong-exception", type(raised).__name__], f"{where}: {raised!r}")
                 got = list(ds.keys())
                 if got == list(seqmodel.keys()) and all(ds[k] is seqmodel[k] for k in got):
                     model = seqmodel
@@ -521,6 +575,8 @@ def ds_history(case, r):
                     r.bad(["ds", "copy-meta"], where)
                 if op["then_del"] in list(cp.keys()):
                     del cp[op["then_del"]]
+                else:
+                    cp["zz"] = osyris.Datagroup()
                 cp.meta["copy_only"] = 1
             except Exception as e:
                 r.bad(["ds", "copy-raises", type(e).__name__], f"{where}: {e!r}")
@@ -545,13 +601,15 @@ member_st = st.fixed_dictionaries({
     "pair": st.sampled_from(EXACT_PAIRS),
     "ints": st.lists(st.integers(-50, 50), min_size=6, max_size=6),
     # how the second group's member relates to the first
-    "mut": st.sampled_from(["same", "same", "same", "unit", "one", "some", "all", "one_comp"]),
+    "mut": st.sampled_from(["same", "same", "same", "unit", "one", "some", "all", "one_comp", "unit_one", "unit_raw"]),
     "where": st.integers(0, 5),
     "dtype": st.sampled_from(["float64", "float64", "int64", "float32"]),
+    # all numbers scaled by 2**scale_exp (exact): tiny values, where an absolute tolerance would hide differences
+    "scale_exp": st.sampled_from([0, 0, 0, -40, -70]),
 })
 eq_case_st = st.fixed_dictionaries({
-    "n": st.integers(1, 6),
-    "keys": st.lists(key_st, min_size=1, max_size=4, unique=True),
+    "n": st.integers(0, 6),
+    "keys": st.lists(key_st, min_size=0, max_size=4, unique=True),
     "members": st.lists(member_st, min_size=4, max_size=4),
     "keymut": st.sampled_from(["same", "same", "same", "same", "reorder", "extra", "missing", "renamed"]),
     "swap": st.booleans(),
@@ -568,37 +626,51 @@ def _eq_build(case):
         ratio = um.parse(u_other)[0] / um.parse(u_self)[0]   # other -> self (exact integers by construction)
         ncomp = m["nvec"] if m["kind"] == "V" else 1
         comps1, comps2 = [], []
-        for c in range(ncomp):
-            base = np.array(m["ints"][:n], dtype=np.int64) + 7 * c
-            v1 = base * int(round(ratio)) if m["mut"] == "unit" else base.copy()
-            v2 = base.copy()
-            comps1.append(v1)
-            comps2.append(v2)
         mut = m["mut"]
         if mut == "one_comp" and ncomp == 1:
             mut = "one"
-        if mut == "one":
-            for c in range(ncomp):
-                comps2[c][m["where"] % n] += 1000
-        elif mut == "one_comp":
-            comps2[m["where"] % ncomp][m["where"] % n] += 1000
-        elif mut == "some":
-            for c in range(ncomp):
-                comps2[c][:: 2] += 1000
-        elif mut == "all":
-            for c in range(ncomp):
-                comps2[c] += 1000
-        if mut in ("one", "one_comp", "some", "all"):
+        converts = mut in ("unit", "unit_one")
+        for c in range(ncomp):
+            base = np.array(m["ints"][:n], dtype=np.int64) + 7 * c
+            v1 = base * int(round(ratio)) if converts else base.copy()
+            v2 = base.copy()
+            comps1.append(v1)
+            comps2.append(v2)
+        changed = False
+        if n > 0:
+            if mut in ("one", "unit_one"):
+                for c in range(ncomp):
+                    comps2[c][m["where"] % n] += 1000
+                changed = True
+            elif mut == "one_comp":
+                comps2[m["where"] % ncomp][m["where"] % n] += 1000
+                changed = True
+            elif mut == "some":
+                for c in range(ncomp):
+                    comps2[c][:: 2] += 1000
+                changed = True
+            elif mut == "all":
+                for c in range(ncomp):
+                    comps2[c] += 1000
+                changed = True
+            elif mut == "unit_raw" and int(round(ratio)) != 1 and any(np.any(c != 0) for c in comps2):
+                changed = True          # the same raw numbers in another unit are different quantities
+        if changed:
             all_equal = False
         unit2 = u_self
-        if mut == "unit":
+        if mut in ("unit", "unit_one", "unit_raw"):
             unit2 = u_other
             if u_other != u_self:
                 unit_differs = True
         dt = np.dtype(m["dtype"])
 
+        scale = 2.0 ** m.get("scale_exp", 0) if dt.kind == "f" else 1.0
+        if dt == np.float32 and m.get("scale_exp", 0) < -40:
+            scale = 2.0 ** -40
+
         def mk(comps, unit):
-            arrs = [osyris.Array(values=c.astype(dt), unit=unit) for c in comps]
+            arrs = [osyris.Array(values=c.astype(dt) * dt.type(scale) if scale != 1.0 else c.astype(dt), unit=unit)
+                    for c in comps]
             return arrs[0] if m["kind"] == "A" else osyris.Vector(*arrs)
         g1[key] = mk(comps1, u_self)
         g2[key] = mk(comps2, unit2)
@@ -606,14 +678,14 @@ def _eq_build(case):
     km = case["keymut"]
     if km == "reorder" and len(g2) > 1:
         g2 = dict(reversed(list(g2.items())))
-    elif km == "extra":
+    elif km == "extra" and len(g1):
         k0 = next(iter(g1))
         g2["zz"] = g2[k0].copy()
         same_keys = False
     elif km == "missing" and len(g2) > 1:
         g2.pop(next(iter(g2)))
         same_keys = False
-    elif km == "renamed":
+    elif km == "renamed" and len(g2):
         k0 = next(iter(g2))
         g2 = {("zz" if k == k0 else k): v for k, v in g2.items()}
         same_keys = False
@@ -624,8 +696,15 @@ def dg_equality(case, r):
     g1, g2, same_keys, all_equal, unit_differs = _eq_build(case)
     a = osyris.Datagroup(g1)
     b = osyris.Datagroup(g2)
-    if case["swap"] and not unit_differs:
+    if case["swap"] and (not unit_differs or not all_equal):
+        # (equal pairs in different units are only built for the exact direction of the conversion)
         a, b = b, a
+    if case["n"] == 0:
+        r.label("empty_members")
+    if not case["keys"]:
+        r.label("no_keys")
+    if any(m.get("scale_exp", 0) < 0 for m in case["members"][: len(case["keys"])]):
+        r.label("tiny_values")
     expect = same_keys and all_equal
     try:
         got = a == b
@@ -654,9 +733,10 @@ def dg_equality(case, r):
 def subs(ctx):
     return [
         Sub("dg_history", dg_history, strategy=dg_case_st, quick=400, thorough=4000,
-            required={"has_rejected_insert": 0.1, "has_delete": 0.08}),
+            required={"has_rejected_insert": 0.1, "has_delete": 0.08, "rejected_item_stored_elsewhere": 0.05}),
         Sub("ds_history", ds_history, strategy=ds_case_st, quick=300, thorough=3000,
             required={"has_rejected_insert": 0.1, "has_delete": 0.08}),
         Sub("dg_equality", dg_equality, strategy=eq_case_st, quick=1500, thorough=12000,
-            required={"expect_equal": 0.1, "expect_unequal": 0.3, "unit_differs": 0.03}),
+            required={"expect_equal": 0.1, "expect_unequal": 0.3, "unit_differs": 0.03, "tiny_values": 0.2,
+                      "empty_members": 0.05}),
     ]
